@@ -133,8 +133,6 @@ func init() {
 	simple("github.com/spf13/afero.NewOsFs", "afero.NewOsFs: a non-nil filesystem", optNonNil)
 	simple("golang.org/x/text/encoding/unicode.UTF16", "unicode.UTF16: a non-nil encoding", optNonNil)
 	simple("golang.org/x/text/transform.NewReader", "transform.NewReader: a non-nil reader (its output is not modelled: any byte string)", optNonNil)
-	simple("golang.org/x/text/transform.NewWriter", "transform.NewWriter: a non-nil writer", optNonNil)
-	simple("(*golang.org/x/text/transform.Writer).Write", "transform.Writer.Write: total; writes some bytes to the underlying writer", optHavoc)
 	simple("golang.org/x/sys/unix.IoctlGetInt", "ioctl wrapper: value or error")
 	simple("golang.org/x/sys/unix.IoctlSetPointerInt", "ioctl wrapper: nil or error")
 	simple("encoding/pem.Encode", "pem.Encode: writes to the writer; nil or the writer's error", optHavoc)
